@@ -375,7 +375,7 @@ def body(draw, env, depth, n_min=1, n_max=None, need_consuming=True, first_must_
     out = []
     cur = ir.Summary((), True, ())
     consumed = False
-    obey = draw(st.floats(0, 1)) < cfg.valid_bias
+    obey = draw(st.floats(0, 1)) < cfg.valid_bias or cfg.valid_bias >= 1.0     # (floats(0, 1) can be exactly 1.0)
     last_was_closed_match = False
 
     def push(s):
